@@ -2,7 +2,7 @@
 lemmas (proved, by induction where needed) about the truth-value semantics of specs/sem.py."""
 from hpl.ast.expressions import (HplExpression, HplUnaryOperator, HplBinaryOperator, HplQuantifier, HplLiteral,
                                  HplFunctionCall, QuantifierType)
-from pyvc.contracts import lemma, spec, unfold
+from pyvc.contracts import lemma, spec, unfold, raw_field
 from specs.sem import ev, equiv, conj, dom, bind, atom, forall_env
 from specs.tree import mentions
 from specs.typing import with_dt
@@ -47,9 +47,9 @@ def is_empty_test(e: 'Expr', d: 'Expr') -> 'Bool':
 
 
 @lemma(axiom=True)
-def empty_test_sem(e: 'Expr', d: 'Expr', rho: 'Env') -> 'Bool':
+def empty_test_sem(e: 'Expr', d: 'Expr') -> 'Bool':
     """A-SEM-3: `len(d) = 0` is true exactly when the domain d has no members"""
-    return (not is_empty_test(e, d)) or (atom(e, rho) == (len(dom(d, rho)) == 0))
+    return (not is_empty_test(e, d)) or forall_env(lambda rho: atom(e, rho) == (len(dom(d, rho)) == 0))
 
 
 # ------------------------------------------------------------------------------------------------ lemmas
@@ -70,7 +70,11 @@ def is_conj(e: 'Expr') -> 'Bool':
     return isinstance(e, HplBinaryOperator) and e.operator.token == 'and'
 
 
-@lemma(auto=('ev',))
+def _pat0(e, t):
+    return with_dt(e, t)
+
+
+@lemma(auto=('ev',), patterns=_pat0)
 def equiv_types(e: 'Expr', t: 'DT') -> 'Bool':
     return equiv(with_dt(e, t), e)
 
@@ -116,7 +120,8 @@ def any_cong(s: 'Seq[Val]', p: 'Expr', q: 'Expr', v: 'Str', rho: 'Env') -> 'Bool
 
 
 def _pat5(s, c, v, rho):
-    return all(ev(c, bind(rho, v, x)) for x in s)
+    # only for a body whose first operand is already spoken of (no chain of instances down the operands)
+    return (all(ev(c, bind(rho, v, x)) for x in s), raw_field(c, 'HplBinaryOperator', 'operand1'))
 
 @lemma(induction_on='s', auto=('ev',), patterns=_pat5)
 def all_and(s: 'Seq[Val]', c: 'Expr', v: 'Str', rho: 'Env') -> 'Bool':
@@ -142,7 +147,7 @@ def all_const(s: 'Seq[Val]', p: 'Expr', v: 'Str', rho: 'Env') -> 'Bool':
 
 
 def _pat7(s, p, v, rho):
-    return all(ev(p, bind(rho, v, x)) for x in s)
+    return (all(ev(p, bind(rho, v, x)) for x in s), raw_field(p, 'HplUnaryOperator', 'operand'))
 
 @lemma(induction_on='s', auto=('ev',), patterns=_pat7)
 def all_neg(s: 'Seq[Val]', p: 'Expr', v: 'Str', rho: 'Env') -> 'Bool':
